@@ -244,3 +244,16 @@ Definition resolve (bk : backend) (L : list sev) (h : hstate) (after : option Z)
       | _ => RStream a
       end
   end.
+
+(* ---------- _stream_events: which cursor a request asks for ---------- *)
+(* the after_sequence query parameter and the Last-Event-ID header as the handler classifies them *)
+Inductive aparam := PAbsent | PNow | PInt (n : Z) | PGarbage.   (* absent = default "now"; int(...) or ValueError *)
+Inductive lparam := LAbsent | LInt (n : Z) | LGarbage.
+(* None = HTTP 400; Some None = "now" (resolved by _resolve_event_stream); Some (Some k) = cursor k *)
+Definition stream_cursor (sse : bool) (a : aparam) (l : lparam) : option (option Z) :=
+  match a with
+  | PGarbage => None
+  | _ =>
+      let c := match a with PInt n => Some n | _ => None end in
+      Some (if sse then match l with LInt n => Some n | _ => c end else c)
+  end.
